@@ -562,3 +562,33 @@ Theorem C01_pattern_not_decoded_example :
   StrictValidEntities.Unesc (BS "1.0.0;a&amp;b") (BS "1.0.0;a&b") /\
   ValueOf tab_enum accept_all no_float 0 (SpecTypes.CString false None) (BS " 1.0.0;a&amp;b ") (DString (BS "1.0.0;a&b")).
 Proof. exact pattern_not_decoded. Qed.
+
+(* ---------- the header of the loaded file ---------- *)
+(* [U] both modes, every table set: the standalone flag of the loaded file is the one of the XML declaration, which is the
+   FIRST event the lexer returns for the byte string; a later declaration never changes it (inside the root element it is
+   an UnexpectedXmlFileHeader error / warning and is otherwise ignored).  The version of the loaded file is the one the
+   root's xsi:schemaLocation names (HeaderOf in InterpDoc, C01_faithful). *)
+Theorem C01_load_standalone :
+  forall (T : tables) (tab_el tab_at tab_en : nametab) (check_fn : N -> list N -> res bool) (float_parse : list N -> option N)
+         (s : bool) (bs : list N) (t : etree) (st : pstate),
+  load s T tab_el tab_at tab_en check_fn float_parse bs = Val (Ret t st) ->
+  exists line sa l1, next (lexer_new bs) = Val (LOk line (EvHeader sa) l1) /\ p_standalone st = sa.
+Proof. exact load_standalone. Qed.
+
+(* [U] C01_faithful with the header: the standalone flag of the loaded file is what the declaration of THE reading says
+   (XmlDeclR), the version what the root's attributes of the reading say *)
+Theorem C01_faithful_header :
+  forall (T : tables) (tab_el tab_at tab_en : nametab) (check_fn : N -> list N -> res bool) (float_parse : list N -> option N)
+         (b : bool) (bs : list N) (t : etree) (st : pstate),
+  names_clean tab_el = true -> names_clean tab_at = true ->
+  load b T tab_el tab_at tab_en check_fn float_parse bs = Val (Ret t st) -> p_warnings st = [] ->
+  exists d, Reads bs d /\ InterpDoc T tab_el tab_at tab_en check_fn float_parse d (p_version st) t /\
+            XmlDeclR (d_decl d) (p_standalone st).
+Proof. exact load_faithful_header. Qed.
+
+(* [F] a stray second declaration (standalone="no") inside the root: strict error, lenient warning, the flag stays "yes" *)
+Theorem C01_stray_declaration_example :
+  strict_kind doc_stray_decl = Some UnexpectedXmlFileHeader /\
+  lenient_kinds doc_stray_decl = Some [UnexpectedXmlFileHeader] /\
+  lenient_standalone doc_stray_decl = Some (Some true).
+Proof. exact stray_declaration_ignored. Qed.
